@@ -29,6 +29,29 @@ func doDump(p *Prog, what string) {
 		for _, f := range p.PerPeerFields() {
 			fmt.Println(f.Name, f.Depth)
 		}
+	case what == "chan":
+		for _, op := range p.ChanOps() {
+			switch op.Kind {
+			case "select":
+				si := p.selectInfo(op.Fn, op.Node.(*ast.SelectStmt))
+				var dc []string
+				for _, d := range si.DoneCtx {
+					ok, why := p.instanceCtx(op.Fn, d, 0)
+					dc = append(dc, fmt.Sprintf("%s[%v:%s]", p.R(op.Fn).Val(d), ok, why))
+				}
+				var snd []string
+				for _, s := range si.Sends {
+					snd = append(snd, p.R(op.Fn).Val(s.Chan).String())
+				}
+				var rcv []string
+				for _, r := range si.Recvs {
+					rcv = append(rcv, p.R(op.Fn).Val(r).String())
+				}
+				fmt.Printf("%s select in %s default=%v done=%v sends=%v recvs=%v\n", p.Pos(op.Node), op.Fn.Name, si.HasDefault, dc, snd, rcv)
+			default:
+				fmt.Printf("%s %s in %s chan=%s\n", p.Pos(op.Node), op.Kind, op.Fn.Name, op.Chan)
+			}
+		}
 	case what == "alias":
 		dumpAlias(p)
 	case what == "funcs":
